@@ -405,6 +405,8 @@ def outcome_diff(got, want, Q):
     if qa:
         if a._units != b._units:
             try:
+                if any(abs(e) > 64 for q in (a, b) for e in dict(q._units).values()):
+                    return "units"         # do not expand astronomically large exponents
                 ra, rb = a.to_root_units(), b.to_root_units()
                 if a.dimensionality == b.dimensionality and numcmp(ra._magnitude, rb._magnitude) in (None, "rounding", "magnitude-type"):
                     return "units-spelling"
